@@ -1,4 +1,22 @@
-/- dsmodel_kll: model driver stub (filled in when the family is built). -/
-def main (_args : List String) : IO UInt32 := do
-  IO.eprintln "dsmodel_kll: not built yet"
-  return 2
+/- dsmodel_kll: `kll` = update/merge/query histories and exhaustive coin trees of the KLL model. -/
+import DSModel.Kll.Driver
+import DSModel.DriverLoop
+import DSGen.Kll
+open DS
+
+def kllParams : Kll.Params :=
+  { m := DSGen.kll_DEFAULT_M, pow3 := DSGen.kll_powers_of_three, splitDepth := DSGen.kll_INT_CAP_SPLIT_DEPTH,
+    minK := DSGen.kll_MIN_K, maxK := DSGen.kll_MAX_K }
+
+def kllErr : Kll.ErrConsts :=
+  { pmfA := Float.ofBits DSGen.kll_ERR_PMF_A_bits, pmfB := Float.ofBits DSGen.kll_ERR_PMF_B_bits,
+    cdfA := Float.ofBits DSGen.kll_ERR_CDF_A_bits, cdfB := Float.ofBits DSGen.kll_ERR_CDF_B_bits }
+
+def constsLine : String :=
+  s!"CONSTS {DSGen.kll_DEFAULT_K} {DSGen.kll_DEFAULT_M} {DSGen.kll_MIN_K} {DSGen.kll_MAX_K} P3" ++
+    String.join (DSGen.kll_powers_of_three.map (fun x => s!" {x}"))
+
+def main (args : List String) : IO UInt32 := do
+  match args with
+  | ["kll"] => runDriver ({} : Kll.St) (Kll.stepLine kllParams kllErr constsLine)
+  | _ => IO.eprintln "usage: dsmodel_kll kll"; return 2
